@@ -158,7 +158,8 @@ fn same_common(a: &Dictionary, b: &Dictionary, with_user: bool, with_mapper: boo
 
 #[cfg(kani)]
 fn roundtrip_matrix(with_user: bool, with_mapper: bool) {
-    let (nr, nl) = (2, 2);
+    // non-square on purpose: a dimension mix-up is invisible on square matrices
+    let (nr, nl) = (2, 3);
     let d = sym_dictionary(ConnectorWrapper::Matrix(sym_matrix(nr, nl)), with_user, with_mapper, nr, nl);
     let mut w = ElemWriter::new();
     let n = write_of(&d, &mut w);
@@ -184,7 +185,7 @@ fn roundtrip_matrix(with_user: bool, with_mapper: bool) {
     core::mem::forget(d2);
 }
 
-//@ c05_roundtrip_matrix {"desc":"write -> read -> write of a matrix-connector dictionary: byte count = bytes emitted, every numeric field identical after reload, reload field-identical","bounds":"2 words, 2x2 matrix, 3-entry character table, 2 unknown entries, no user lexicon, no mapper; all strings empty","symbolic":"word/unknown parameters, matrix cells, character infos","functions":["Dictionary::write","Dictionary::read","Dictionary::read_common","bincode derive codecs of DictionaryInner/Lexicon/WordMap/Postings/WordParams/WordFeatures/MatrixConnector/CharProperty/UnkHandler","Trie::encode","Trie::decode"],"fs":5000,"unwind":24,"unwindset":["memcmp:24","roundtrip_matrix:1030","ElemWriter:200"],"timeout":2400,"mem_gb":24,"stubs":["alloc::fmt::format","unty::type_equal"]}
+//@ c05_roundtrip_matrix {"desc":"write -> read -> write of a matrix-connector dictionary: byte count = bytes emitted, every numeric field identical after reload, reload field-identical","bounds":"2 words, matrix with 2 right x 3 left ids, 3-entry character table, 2 unknown entries, no user lexicon, no mapper; all strings empty","symbolic":"word/unknown parameters, matrix cells, character infos","functions":["Dictionary::write","Dictionary::read","Dictionary::read_common","bincode derive codecs of DictionaryInner/Lexicon/WordMap/Postings/WordParams/WordFeatures/MatrixConnector/CharProperty/UnkHandler","Trie::encode","Trie::decode"],"fs":5000,"unwind":24,"unwindset":["memcmp:24","roundtrip_matrix:1030","ElemWriter:200"],"timeout":2400,"mem_gb":24,"stubs":["alloc::fmt::format","unty::type_equal"]}
 #[cfg(kani)]
 #[kani::proof]
 #[kani::stub(alloc::fmt::format, crate::c06::stub_format)]
